@@ -28,6 +28,7 @@ type c17Scenario struct {
 	batch bool
 	two   bool // two regions on two servers, a batch with one call each
 	swap  bool // ... in the other order
+	warm  bool // the region is used successfully first; the failure begins afterwards
 	loops int  // > 1: that many regions on the failing server, one concurrent request each (attempts of the loops interleave)
 	setup func(cl *verifsim.Cluster, mark func())
 	opts  []Option
@@ -102,6 +103,17 @@ func TestVerifC17(t *testing.T) {
 			cl.Rules = append(cl.Rules, func(c *verifsim.Cluster, rs *verifsim.RS, sc *verifsim.ServerConn, req *verifsim.Request, name []byte) *verifsim.Directive {
 				if rs.Addr == "rs1" && req.Method == "Get" {
 					mark()
+					return &verifsim.Directive{Exc: verifsim.ExcNotServing}
+				}
+				return nil
+			})
+		}},
+		{name: "region-goes-offline-after-being-online", imm: 1, tol: 3, warm: true, setup: func(cl *verifsim.Cluster, mark func()) {
+			// an established region (it has a connection) starts answering "not serving" to requests and probes alike: the
+			// request waits for the re-establishment, whose probes follow the schedule - it is not re-sent at full speed
+			cl.Rules = append(cl.Rules, func(c *verifsim.Cluster, rs *verifsim.RS, sc *verifsim.ServerConn, req *verifsim.Request, name []byte) *verifsim.Directive {
+				if rs.Addr == "rs1" && (req.Method == "Get" || req.Method == "Mutate" || req.Method == "Multi") {
+					mark() // the request itself (once), then the probes of the re-establishment
 					return &verifsim.Directive{Exc: verifsim.ExcNotServing}
 				}
 				return nil
@@ -219,8 +231,19 @@ func TestVerifC17(t *testing.T) {
 						s.name, time.Duration(times[len(times)-1]-times[0])*time.Microsecond, gaps(times, 8)))
 				}
 			}
-			s.setup(cl, mark)
+			if !s.warm {
+				s.setup(cl, mark)
+			}
 			c := newSimClient(cl, append([]Option{RpcQueueSize(5), FlushInterval(time.Millisecond)}, s.opts...)...)
+			if s.warm {
+				g, _ := hrpc.NewGet(context.Background(), []byte("t"), []byte("k"))
+				c.Get(g)
+				synctest.Wait()
+				t0 = time.Now()
+				cl.Lock()
+				s.setup(cl, mark)
+				cl.Unlock()
+			}
 			done := make(chan struct{})
 			go func() {
 				defer close(done)
